@@ -171,6 +171,18 @@ pub fn run(ctx: &Ctx) -> Report {
             singles.push(format!("/%{}{}", a, b));
         }
     }
+    // an escape sign followed by multi-byte characters (char-boundary arithmetic)
+    {
+        let units = ["", "a", "4", "G", "%", "é", "€", "😀", "\u{80}", "\u{7ff}"];
+        for x in units {
+            for y in units {
+                for z in ["", "b", "é"] {
+                    singles.push(format!("/p%{}{}{}", x, y, z));
+                    singles.push(format!("/{}%{}{}/q", z, x, y));
+                }
+            }
+        }
+    }
     for s in [
         "", "/", "//", "///", "a", "a/b", "*", ".", "..", "./a", "../a", "%2F", "%2fa", " /a", "http://h/a", "?", "/a?b",
         "/a#b", "/%", "/%4", "/%%", "/%%41", "/%25", "/%2525", "/a/%", "/a%", "/a%4", "/.%2e/", "/%2e%2e/..", "/a/b/c/../../..",
@@ -195,7 +207,7 @@ pub fn run(ctx: &Ctx) -> Report {
     Report {
         stats: st,
         rule: format!(
-            "all paths of 0..={} segments over the {}-symbol alphabet {:?} x trailing slash x {{standard,S3}}; every ASCII byte literal (3 contexts), every 2-byte UTF-8 char literal, every %XX in 4 hex-case spellings, every two-character escape %c1c2 over ASCII^2 (2 contexts), 40 special paths; plus end-to-end signing of all <=3-segment paths. states = distinct (mode, reference normal form | error class); non-trivial = input differs from its normal form or is refused",
+            "all paths of 0..={} segments over the {}-symbol alphabet {:?} x trailing slash x {{standard,S3}}; every ASCII byte literal (3 contexts), every 2-byte UTF-8 char literal, every %XX in 4 hex-case spellings, every two-character escape %c1c2 over ASCII^2 (2 contexts), '%' followed by every pair over 10 units incl. 2/3/4-byte characters, 40 special paths; plus end-to-end signing of all <=3-segment paths. states = distinct (mode, reference normal form | error class); non-trivial = input differs from its normal form or is refused",
             max_segs, SEGMENTS.len(), SEGMENTS
         ),
         bounds: json!({"max_segments": max_segs, "alphabet": SEGMENTS.len(), "modes": 2}),
